@@ -119,6 +119,7 @@ def main():
     keytolist()
     binary_ops()
     minmax_arguments()
+    dot_arguments()
     print('EXPR-COUNT ' + json.dumps(count))
     print('EXPR-JSON ' + json.dumps(fails))
 
@@ -576,6 +577,50 @@ def minmax_arguments():
                 abs(u - w) > 1e-12 for u, w in zip(list(f.value()), want)):
             fail('minmax-accepts', {'expression': nm, 'value': list(
                 f.value()), 'expected': want, '(convex, concave)': flags})
+
+
+def dot_arguments():
+    """dot(u, v): u a dense column matrix of size (len(v), 1), v a variable
+    or an affine function (either order) -> the scalar u' v; two dense
+    matrices -> blas.dot; anything else is refused"""
+    from cvxopt.modeling import dot as mdot, max as mmax
+    v = variable(2, 'v')
+    v.value = matrix([1.0, 2.0])
+    c2 = matrix([3.0, -1.0])
+    A = matrix([1.0, 2.0, 3.0, 4.0, 5.0, 6.0], (2, 3))
+    good = [('dot(c, v)', lambda: mdot(c2, v), 1.0),
+            ('dot(v, c)', lambda: mdot(v, c2), 1.0),
+            ('dot(c, 2v+1)', lambda: mdot(c2, 2 * v + 1), 4.0),
+            ('dot(2v+1, c)', lambda: mdot(2 * v + 1, c2), 4.0)]
+    for nm, mk, want in good:
+        count['dot'] = count.get('dot', 0) + 1
+        try:
+            f = mk()
+            got = list(f.value())
+            if len(f) != 1 or abs(got[0] - want) > 1e-12:
+                fail('dot-accepts', {'expression': nm, 'len': len(f),
+                                     'value': got, 'expected': [want]})
+        except Exception as e:
+            fail('dot-accepts', {'expression': nm, 'refused': repr(e)})
+    if abs(mdot(c2, matrix([2.0, 5.0])) - 1.0) > 1e-12:
+        fail('dot-accepts', {'expression': 'dot(c, matrix)', 'value':
+                             mdot(c2, matrix([2.0, 5.0]))})
+    bad = [('dot(2x3 matrix, variable(2))', lambda: mdot(A, v)),
+           ('dot(variable(2), 2x3 matrix)', lambda: mdot(v, A)),
+           ('dot(2x3 matrix, 2v+1)', lambda: mdot(A, 2 * v + 1)),
+           ('dot(3x1 matrix, variable(2))', lambda: mdot(matrix(
+               [1.0, 2.0, 3.0]), v)),
+           ('dot(1x2 matrix, variable(2))', lambda: mdot(c2.T, v)),
+           ('dot(c, max(v, 0))', lambda: mdot(c2, mmax(v, 0))),
+           ('dot(v, v)', lambda: mdot(v, v))]
+    for nm, mk in bad:
+        count['dot'] = count.get('dot', 0) + 1
+        try:
+            f = mk()
+        except Exception:
+            continue
+        fail('dot-accepts', {'expression': nm, 'accepted': True, 'len':
+                             len(f), 'value': list(f.value())})
 
 
 def aliasing():
